@@ -1062,6 +1062,8 @@ def gen_mixed(rng, weights=None):
         spec, meta = gen_occ(rng)
     elif c == "A":
         spec, meta = gen_affine(rng)
+    elif c == "Os":
+        spec, meta = gen_sigma_like(rng)
     elif c == "A+":
         spec, meta = gen_affine(rng, allow_occ=True)
     elif c == "A2":
